@@ -104,6 +104,13 @@ SCOPES = {
         roots=[P()], fmtchoices=[["md5"], ["sha1"]], pats=[()], sf=[],
         ops=["alter", "create", "flatten", "verifypl"], maxgens=3, maxops=5, keepsnap=False,
     ),
+    # one mutable file, six operations: a failed entry in one generation, the file restored, a NEW format in a later generation, flatten
+    "flatf": dict(
+        fmts=["md5", "sha1"], files=[P("a"), P("d", "b")], dirs=[P("d")],
+        init={P("a"): "c1", P("d"): "DIR", P("d", "b"): "c2"}, contents=["c1", "c2"],
+        roots=[P()], fmtchoices=[["md5"], ["sha1"]], pats=[()], sf=[],
+        ops=["alter", "create", "flatten", "verifypl"], maxgens=3, maxops=6, keepsnap=False, mutable=[P("a")],
+    ),
     # flatten of a history that carries an ignore pattern: the packing list inherits it, verify -pl does not report the ignored file
     "flatign": dict(
         fmts=["md5"], files=[P("a"), P("x"), P("d", "x")], dirs=[P("d")],
